@@ -27,7 +27,11 @@ RULE = (
     "builtin base API (deriving, in-place, mutating) + copy.copy / copy.deepcopy / pickle / construction from the object / "
     "frozen() / as_multiprofile(); operands: plain builtins, objects of the same class with other attributes, wrong-typed "
     "ballots; non-trivial = >=1 deriving and >=1 mutating step executed (frozen classes: >=2 deriving); distinct by "
-    "(class, op-name sequence, operand kinds)"
+    "(class, op-name sequence, operand kinds); second stream 'validation histories': <=4 profiles / multiprofiles per history created with "
+    "default / explicit / permissive (abstract, base) / restrictive (subclass) / unrelated ballot_type arguments and validation on/off, "
+    "interleaved inserting operations (append, insert, extend, +=, |=, update, setdefault, item assignment, constructor initialiser) "
+    "offering ballots of 4 kinds x mutable/frozen x plain/subclass; all histories of a run executed in order in one fresh process; "
+    "each step judged against the ballot_type its own profile was created with"
 )
 ASSUMPTIONS = [
     "source = the object whose method is invoked (methods are called by name: x.__or__(y), x.__getitem__(slice), ...)",
@@ -568,6 +572,303 @@ def run_sequence(w: World, name, length, record):
 
 
 # ----------------------------------------------------------------------------------------------
+# validation histories: several profiles with their OWN `ballot_type` in one process
+#
+# Statement: "a profile with validation enabled never ends up containing a ballot of the wrong type, whichever mutating
+# operation is used".  "Wrong" is relative to the profile's own `ballot_type` - a constructor argument whose default
+# depends on the class.  One history = <=4 profiles / multiprofiles (mostly of one class) created with the default, the
+# explicit default, a permissive (abstract / base class), a restrictive (a subclass only) or an unrelated ballot type,
+# interleaved with inserting operations that offer ballots of all 4 kinds x mutable / frozen x plain / subclass.  The
+# histories of one run are executed one after the other in ONE fresh worker process (whatever a profile leaves behind
+# in the process - class attributes, module-level state - meets the later profiles); the judgement of every step uses
+# only the spec of the profile it is applied to.  Pure data (JSON), so a stored violation replays in a fresh process.
+
+V_KINDS = ["app", "card", "cum", "ord"]
+V_CLS = {"app": "Approval", "card": "Cardinal", "cum": "Cumulative", "ord": "Ordinal"}
+# ballot-type menu: name -> how the class is found (resolved in the worker)
+V_BT_LIST = ["default", "default", "default", "own", "abstract_kind", "base", "abstract", "sub", "other_frozenness", "other_kind"]
+V_LIST_OPS = ["append", "insert", "extend", "__iadd__", "__setitem__"]
+V_MULTI_OPS = ["append", "extend", "update_list", "update_map", "setdefault", "__setitem__", "__iadd__", "__ior__"]
+
+
+def _v_ballot_spec(r, bias_kind):
+    kind = bias_kind if r.random() < 0.6 else r.choice(V_KINDS)
+    return {"kind": kind, "frozen": r.random() < 0.5, "sub": r.random() < 0.2, "tag": r.randint(0, 5)}
+
+
+def gen_vhistory(rng: random.Random):
+    sub = rng.getrandbits(48)
+    r = random.Random(sub)
+    kind = r.choice(V_KINDS)
+    multi = r.random() < 0.5
+    steps = []
+    profiles = []  # (kind, multi)
+    for k in range(r.randint(3, 12)):
+        if not profiles or (len(profiles) < 4 and r.random() < 0.3):
+            pk, pm = (kind, multi) if r.random() < 0.8 else (r.choice(V_KINDS), r.random() < 0.5)
+            bt = r.choice(V_BT_LIST)
+            st = {"op": "new", "kind": pk, "multi": pm, "bt": bt, "validation": r.choice([None, None, True, True, True, False]),
+                  "init": [_v_ballot_spec(r, pk) for _ in range(r.choice([0, 0, 1, 2]))]}
+            if pm:
+                for b in st["init"]:
+                    b["frozen"] = True  # keys of a Counter
+            profiles.append((pk, pm))
+            steps.append(st)
+            continue
+        i = r.randrange(len(profiles))
+        pk, pm = profiles[i]
+        op = r.choice(V_MULTI_OPS if pm else V_LIST_OPS)
+        single = op in ("append", "insert", "__setitem__", "setdefault")
+        bs = [_v_ballot_spec(r, pk) for _ in range(1 if single else r.randint(0, 3))]
+        if pm and op != "extend":
+            for b in bs:
+                b["frozen"] = True
+        steps.append({"op": op, "p": i, "ballots": bs, "arg": r.randint(0, 3), "as": r.choice(["list", "tuple", "iter"])})
+    return {"seed": sub, "steps": steps}
+
+
+def vhistory_nontrivial(h):
+    """two validating profiles of one class with different ballot types are both offered a ballot of the same class"""
+    profs = [s for s in h["steps"] if s["op"] == "new"]
+    offered = {}
+    for s in h["steps"]:
+        if s["op"] != "new":
+            pr = profs[s["p"]]
+            if pr["validation"] is not False:
+                for b in s["ballots"]:
+                    offered.setdefault((pr["kind"], pr["multi"], b["kind"], b["frozen"], b["sub"]), set()).add(pr["bt"])
+    return any(len(v - {"own"}) >= 2 for v in offered.values())
+
+
+class VWorld:
+    """worker side: real classes, subclasses, ballots"""
+
+    def __init__(self):
+        import pabutools.election as e
+
+        self.e = e
+        self.projects = [e.Project("p%d" % i, 1 + i % 3) for i in range(6)]
+        self.inst = e.Instance(self.projects, budget_limit=5)
+        self.subs = {}
+
+    def ballot_class(self, kind, frozen, sub=False):
+        name = ("Frozen" if frozen else "") + V_CLS[kind] + "Ballot"
+        cls = getattr(self.e, name)
+        if not sub:
+            return cls
+        if name not in self.subs:
+            self.subs[name] = type("Sub" + name, (cls,), {})
+        return self.subs[name]
+
+    def ballot_type(self, kind, multi, bt):
+        """(argument handed to the constructor or None, the type the profile must validate against)"""
+        e = self.e
+        default = self.ballot_class(kind, multi)
+        other = {"app": "card", "card": "ord", "cum": "app", "ord": "cum"}[kind]
+        t = {
+            "default": None,
+            "own": default,
+            "abstract_kind": getattr(e, "Abstract" + V_CLS[kind] + "Ballot"),
+            "base": e.FrozenBallot if multi else e.Ballot,
+            "abstract": e.AbstractBallot,
+            "sub": self.ballot_class(kind, multi, sub=True),
+            "other_frozenness": self.ballot_class(kind, not multi),
+            "other_kind": self.ballot_class(other, multi),
+        }[bt]
+        return t, (default if t is None else t)
+
+    def ballot(self, spec):
+        kind, tag = spec["kind"], spec["tag"]
+        rr = random.Random(tag * 7 + V_KINDS.index(kind))
+        ps = rr.sample(self.projects, rr.randint(1, 4))
+        cls = self.ballot_class(kind, False, spec["sub"] and not spec["frozen"])
+        if kind in ("app", "ord"):
+            b = cls(ps, name="v%d" % tag, meta={"t": tag})
+        else:
+            b = cls({p: rr.randint(0, 3) for p in ps}, name="v%d" % tag, meta={"t": tag})
+        if spec["frozen"]:
+            b = self.ballot_class(kind, True, spec["sub"])(b)
+        return b
+
+    def profile_class(self, kind, multi):
+        return getattr(self.e, V_CLS[kind] + ("MultiProfile" if multi else "Profile"))
+
+
+def run_vhistory(w: VWorld, h):
+    """-> (violations, counters) for one history on the real classes"""
+    e = w.e
+    viol, counts = [], []
+    profs = []  # (object or None, spec, T)
+
+    def v(k, call, check, what, impl=None, expected=None):
+        viol.append({"what": what, "impl": impl, "expected": expected, "step": k, "sig": {"call": call, "check": check, "stream": "validation_history"}})
+
+    for k, st in enumerate(h["steps"]):
+        if st["op"] == "new":
+            pcls = w.profile_class(st["kind"], st["multi"])
+            arg, T = w.ballot_type(st["kind"], st["multi"], st["bt"])
+            validated = st["validation"] is not False
+            bs = [w.ballot(b) for b in st["init"]]
+            kw = {"instance": w.inst}
+            if arg is not None:
+                kw["ballot_type"] = arg
+            if st["validation"] is not None:
+                kw["ballot_validation"] = st["validation"]
+            call = pcls.__name__ + ".__init__"
+            counts.append(("ballot_type_arg", st["bt"]))
+            target, op, eff = None, "new", bs
+            thunk = lambda: pcls(bs, **kw)  # noqa: E731
+        else:
+            target, spec, T = profs[st["p"]]
+            if target is None:
+                continue  # its construction failed (reported there, or a rightly refused initialiser)
+            validated = spec["validation"] is not False
+            pcls = type(target)
+            multi = spec["multi"]
+            op = st["op"]
+            if op == "__setitem__" and not multi and len(target) == 0:
+                op = "append"
+            bs = [w.ballot(b) for b in st["ballots"]]
+            # MultiProfile.extend freezes the mutable ballots first (documented: force_freeze=True) and validates the result
+            eff = [b.frozen() if (multi and op == "extend" and isinstance(b, e.Ballot)) else b for b in bs]
+            cont = {"list": list, "tuple": tuple, "iter": iter}[st["as"]]
+            n = st["arg"]
+            call = pcls.__name__ + "." + op
+            if op == "append":
+                thunk = lambda: target.append(bs[0])  # noqa: E731
+            elif op == "insert":
+                thunk = lambda: target.insert(min(n, len(target)), bs[0])  # noqa: E731
+            elif op == "setdefault":
+                thunk = lambda: target.setdefault(bs[0], 1 + n)  # noqa: E731
+            elif op == "__setitem__":
+                thunk = (lambda: target.__setitem__(bs[0], 1 + n)) if multi else (lambda: target.__setitem__(n % len(target), bs[0]))  # noqa: E731
+            elif op == "extend":
+                thunk = lambda: target.extend(cont(bs))  # noqa: E731
+            elif op == "__iadd__" and not multi:
+                thunk = lambda: target.__iadd__(cont(bs))  # noqa: E731
+            elif op == "update_list":
+                thunk = lambda: target.update(cont(bs))  # noqa: E731
+            elif op == "update_map":
+                thunk = lambda: target.update({b: 1 + n for b in bs})  # noqa: E731
+            else:  # Counter += / |=
+                thunk = lambda: getattr(target, op)(Counter({b: 1 + n for b in bs}))  # noqa: E731
+        wrong = [type(b).__name__ for b in eff if not isinstance(b, T)]
+        counts.append(("v_op", op))
+        raised = None
+        res = None
+        try:
+            res = thunk()
+        except Exception as ex:  # noqa: BLE001
+            raised = ex
+        if st["op"] == "new":
+            profs.append((res if raised is None else None, st, T))
+            target = res if raised is None else None
+        if raised is not None:
+            if isinstance(raised, TypeError) and validated and wrong:
+                counts.append(("v_outcome", "wrong-typed ballot refused"))
+            elif isinstance(raised, TypeError) and validated:
+                v(k, call, "refused_own_type", f"{call} refused {[type(b).__name__ for b in eff]} although the profile's ballot_type is {T.__name__}: {raised}", impl=repr(raised)[:200], expected="accepted")
+            else:
+                v(k, call, "raised", f"{call} raised {type(raised).__name__}: {raised}", impl=repr(raised)[:200])
+        else:
+            counts.append(("v_outcome", "accepted" if not wrong else ("wrong-typed ballot accepted, validation off" if not validated else "wrong-typed ballot accepted")))
+        if target is not None:
+            if target.ballot_type is not T or bool(target.ballot_validation) != validated:
+                v(k, call, "own_attrs", f"profile created with ballot_type {T.__name__}, validation {validated} now has {getattr(target.ballot_type, '__name__', target.ballot_type)}, {target.ballot_validation}")
+                target.ballot_type, target.ballot_validation = T, validated
+            if validated:
+                bad = [b for b in target if not isinstance(b, T)]
+                if bad:
+                    v(k, call, "validation", f"validated {pcls.__name__} (ballot_type {T.__name__}) contains {type(bad[0]).__name__} after {op}", impl=[type(b).__name__ for b in bad], expected=T.__name__)
+                    # remove the intruders so that later steps are judged on their own
+                    if isinstance(target, list):
+                        keep = [b for b in target if isinstance(b, T)]
+                        list.clear(target)
+                        list.extend(target, keep)
+                    else:
+                        for b in bad:
+                            dict.__delitem__(target, b)
+    return viol, counts
+
+
+def vworker_main():
+    import sys
+
+    hs = json.load(sys.stdin)
+    w = VWorld()
+    out = []
+    for h in hs:
+        viol, counts = run_vhistory(w, h)
+        out.append({"viol": viol, "counts": counts})
+    json.dump(out, sys.stdout, default=str)
+
+
+def run_vworker(histories):
+    """all histories, in order, in one fresh interpreter"""
+    import os
+    import subprocess
+    import sys
+
+    env = dict(os.environ)
+    env["PYTHONPATH"] = core.VERIF + os.pathsep + env.get("PYTHONPATH", "")
+    env["PABU_REPO"] = core.REPO
+    p = subprocess.run([sys.executable, "-m", "harness.props.C17", "--vworker"], cwd=core.VERIF, env=env, input=json.dumps(histories).encode(), stdout=subprocess.PIPE, stderr=subprocess.PIPE, timeout=900)
+    if p.returncode != 0:
+        raise core.DriverError("C17 validation-history worker exit %d: %s" % (p.returncode, p.stderr.decode()[-400:]))
+    return json.loads(p.stdout.decode())
+
+
+def _vsite_fails(histories, site):
+    res = run_vworker(histories)
+    return any((x["sig"]["call"], x["sig"]["check"]) == site for x in res[-1]["viol"])
+
+
+def self_contained_vcase(histories, idx, site, max_trials=8):
+    """shortest tried suffix of histories[:idx+1] that reproduces the violation site in a fresh process (the history alone, the
+    last 2, 4, ... histories, at last the whole prefix, which is what the run executed)"""
+    k, trials = 1, 0
+    while k < idx + 1 and trials < max_trials:
+        part = histories[idx + 1 - k: idx + 1]
+        trials += 1
+        if _vsite_fails(part, site):
+            return part
+        k *= 2
+    return histories[: idx + 1]
+
+
+def run_validation_histories(ctx, n):
+    histories = [gen_vhistory(ctx.rng) for _ in range(n)]
+    res = run_vworker(histories)
+    first = {}
+    for idx, (h, r) in enumerate(zip(histories, res)):
+        ctx.evaluations += 1
+        ctx.count("stream", "validation_history")
+        ctx.count("v_profiles_per_history", str(sum(1 for s in h["steps"] if s["op"] == "new")))
+        for a, b in r["counts"]:
+            ctx.count(a, b)
+        if vhistory_nontrivial(h):
+            ctx.nontrivial.add(("vhist", h["seed"]))
+            ctx.count("v_nontrivial", "two ballot types of one profile class offered the same ballot class")
+        for x in r["viol"]:
+            site = (x["sig"]["call"], x["sig"]["check"])
+            ctx.count("violation_sites", "%s:%s" % site)
+            if site not in first:
+                first[site] = (idx, x)
+    # the clause of the statement itself (a wrong-typed ballot inside a validating profile) first
+    first = dict(sorted(first.items(), key=lambda kv: (kv[0][1] != "validation", kv[1][0])))
+    for site, (idx, x) in list(first.items())[:5]:
+        part = self_contained_vcase(histories, idx, site)
+        x["case"] = {"stream": "validation_history", "histories": part, "site": list(site)}
+        x["cfg"] = {}
+        x["what"] += " (history %d of the run; replay = %d histories in a fresh process)" % (idx, len(part))
+        ctx.violations.append(x)
+    for site, (idx, x) in list(first.items())[5:]:
+        x["case"] = {"stream": "validation_history", "histories": histories[: idx + 1], "site": list(site)}
+        x["cfg"] = {}
+        ctx.violations.append(x)
+
+
+# ----------------------------------------------------------------------------------------------
 # model side
 
 
@@ -650,6 +951,8 @@ def run(ctx):
             first[k] = x
         ctx.count("violation_sites", "%s:%s" % k)
     ctx.violations = list(first.values())
+    # profiles with their own ballot types side by side in one process (predicate only; the table model has no ballot types)
+    run_validation_histories(ctx, ctx.scale(1200, 8000))
 
 
 def search(ctx, disagreements):
@@ -670,6 +973,8 @@ def search(ctx, disagreements):
             ctx.violations.append(x)
         if len(ctx.violations) >= 5:
             break
+    if len(ctx.violations) < 5:
+        run_validation_histories(ctx, 3000)
 
 
 def replay(payload):
@@ -677,6 +982,16 @@ def replay(payload):
     if not case:
         _, _, unknown, missing = discover("Instance")
         return (not unknown, "unclassified API: %s" % unknown)
+    if case.get("stream") == "validation_history":
+        res = run_vworker(case["histories"])
+        viol = [x for r in res for x in r["viol"]]
+        site = tuple(case.get("site", []))
+        for x in viol:
+            if (x["sig"]["call"], x["sig"]["check"]) == site:
+                return False, "still fails: " + x["what"]
+        if viol:
+            return False, "still fails (other site): " + viol[0]["what"]
+        return True, "property holds on the replayed validation histories (%d)" % len(case["histories"])
     w = World(random.Random(case["seed"]))
     length = w.rng.randint(1, 6)
     viol, steps, _ = run_sequence(w, case["class"], length, lambda *a: None)
@@ -687,3 +1002,10 @@ def replay(payload):
     if viol:
         return False, "still fails (other site): " + viol[0]["what"]
     return True, "property holds on the replayed sequence: " + json.dumps([s["op"] for s in steps])
+
+
+if __name__ == "__main__":
+    import sys
+
+    if "--vworker" in sys.argv:
+        vworker_main()
